@@ -204,6 +204,37 @@ def classify(ctx, sd, before_doc, an, entry, case, findings):
         ctx.failures.append({"case": case, "why": why, "why_class": f"{entry}:{kind}", "entry": entry})
 
 
+def replay(ctx, proj, findings):
+    """--replay f: re-execute exactly the case stored in a replay file, on the current tree and on the model."""
+    rj = json.loads(open(ctx.replay).read())
+    case = rj["case"]
+    if "schema_text" not in case:
+        raise vlib.Infra("replay file has no schema/instance case (tie-broken replays name theorems, not inputs)")
+    wd = H.Workdir("c11r")
+    try:
+        name = case["schema"]
+        wd.add_schema_text(name, case["schema_text"])
+        wd.enter()
+        sd = get_sd(name, case["schema_text"])
+        ctx.case(case)
+        if case.get("entry") == "repair()":
+            tree = H.to_tuples(case["tree"])
+            req, impl, an, _st = api_case(sd, tree)
+            classify(ctx, sd, H.build_doc(tree), an, "repair()", case, findings)
+            if req is not None:
+                rep = proj.driver().batch([req])[0]
+                if rep.get("log") != impl["log"] or rep.get("doc") != impl["doc"]:
+                    ctx.corr_disagreements.append({"case": case, "model": rep.get("log"), "impl": impl["log"], "view": "repair log / document"})
+        else:
+            r = tool_case((name, case["schema_text"], case["text"], case["entry"], 0))
+            for k, n in r.get("known", {}).items():
+                if k in findings:
+                    ctx.known_hits[k] = ctx.known_hits.get(k, 0) + n
+            classify(ctx, sd, None, r["an"], case["entry"], dict(case, cycle=r.get("cycle", False)), findings)
+    finally:
+        wd.leave()
+
+
 def run(ctx: vlib.Ctx):
     ctx.rule = ("case = (schema, instance tree, entry point); exhaustive: every hand schema x every field x every perturbation of that field "
                 "(pool derived from the field's real constraint chain) with the assignment repeated nested/top-level/in a section/next to a zone; "
@@ -215,6 +246,8 @@ def run(ctx: vlib.Ctx):
         ctx.widen = max(ctx.widen, 8)
         ctx.notes.append("fingerprint of a modelled function changed: search widened")
     findings = {f["id"]: f for f in vlib.load_findings(ctx.prop)}
+    if ctx.replay:
+        return replay(ctx, proj, findings)
     drv = proj.driver()
     rng = ctx.rng
     wd = H.Workdir("c11")
@@ -249,8 +282,10 @@ def run(ctx: vlib.Ctx):
         # -- A. numeral grammar: Lean Numeral.* vs CPython int()/float() ----------------------------
         pool = list(dict.fromkeys(H.NUM_STRINGS + [v for v in H.GENERIC_STRINGS]))
         alphabet = ["1", "0", "_", ".", "e", "E", "+", "-", " ", "٣", "n", "a", "i", "f", "x"]
-        for _ in range(ctx.budget(1500, 20000)):
+        for _ in range(ctx.budget(500, 6000)):
             pool.append("".join(rng.choice(alphabet) for _ in range(rng.randint(1, 7))))
+        for _ in range(ctx.budget(1500, 20000)):
+            pool.append(H.random_numeral(rng))
         if ctx.thorough or ctx.widen > 1:
             import itertools
             for n in (1, 2, 3, 4):
@@ -264,9 +299,75 @@ def run(ctx: vlib.Ctx):
             if "unsupported" in rep or view != impl:
                 ctx.corr_disagreements.append({"case": {"numeral": s}, "model": rep, "impl": impl, "view": "strip/int/float grammar"})
         ctx.extra["numeral_strings"] = len(pool)
+        # external law `CaseStable` (hypothesis of C11_idem_partial): coercibility does not depend on letter case
+        from octave_mcp.core.constraints import TypeConstraint
+        from octave_mcp.core.repair import _attempt_type_coercion
+        from octave_mcp.core.repair_log import RepairLog
+        tc = TypeConstraint(expected_type="NUMBER")
+
+        def coercible(x):
+            try:
+                return _attempt_type_coercion(x, tc, RepairLog(repairs=[]))[1]
+            except Exception:
+                return "raise"
+        n_law = 0
+        for s_ in pool:
+            for t_ in {s_.lower(), s_.upper(), s_.swapcase(), s_.title()}:
+                if t_ != s_ and t_.lower() == s_.lower():
+                    n_law += 1
+                    if coercible(s_) != coercible(t_):
+                        ctx.corr_disagreements.append({"case": {"s": s_, "t": t_}, "model": "CaseStable assumed", "impl": [coercible(s_), coercible(t_)],
+                                                       "view": "external law CaseStable (hypothesis of C11_idem_partial)"})
+        ctx.extra["case_stable_pairs"] = n_law
+
+        # -- A2. repair_value() directly (guards before any change): value pool x field definitions ----
+        from octave_mcp.core.schema_extractor import FieldDefinition
+        from octave_mcp.core.holographic import HolographicPattern
+        from octave_mcp.core.constraints import ConstraintChain
+        sdall = sds["SCHEMA_A"]
+        fdefs = [("absent", None), ("nopattern", FieldDefinition(name="X", pattern=None)),
+                 ("noconstraints", FieldDefinition(name="X", pattern=HolographicPattern(example="x", constraints=None, target=None))),
+                 ("emptychain", FieldDefinition(name="X", pattern=HolographicPattern(example="x", constraints=ConstraintChain([]), target=None)))]
+        for nm in ("SCHEMA_A", "SCHEMA_B", "SCHEMA_C", "SCHEMA_F"):
+            for k, fd in sds[nm].fields.items():
+                fdefs.append((f"{nm}.{k}", fd))
+        rv_reqs, rv_impl, rv_case = [], [], []
+        vals = [H.build_value(v) for v in H.WRONG_KINDS + H.API_ONLY_KINDS + H.GENERIC_STRINGS + ["active", "Active", "DONE", "pending", "ab", "A", "42", " 4_2 ", "1e5", "1E5", "1e309", "nan", "٣"]]
+        for (fdn, fd) in fdefs:
+            for v in vals:
+                for fix in (True, False):
+                    v2, was, log, exc = H.run_repair_value(v, fd, fix)
+                    case = {"repair_value": fdn, "value": repr(v), "fix": fix, "entry": "repair_value()"}
+                    ctx.case(case)
+                    ctx.count("repair_value")
+                    if exc:
+                        ctx.failures.append({"case": case, "why": f"repair_value raised {exc}", "why_class": "repair_value:raise"})
+                        continue
+                    changed = not H.same_value(v, v2)
+                    if (not fix and (changed or log)) or (changed and not isinstance(v, str)) or (changed != bool(log) and not (log and not changed)) or (was != bool(log)):
+                        ctx.failures.append({"case": case, "why": f"repair_value({v!r}, fix={fix}) -> {v2!r}, was_repaired={was}, log={log}: forbidden or unlogged change",
+                                             "why_class": "repair_value:forbidden"})
+                    fj = "absent" if fd is None else (None if fd.pattern is None else H.enc_schema(type("S", (), {"name": "S", "fields": {"X": fd}, "policy": None, "default_target": None, "frontmatter": {}})())["fields"][0][1])
+                    jv = H.enc_val(v)
+                    if not H.has_surrogate(jv):
+                        rv_reqs.append({"op": "repair_value", "value": jv, "field": fj, "fix": fix, "env": H.make_env(jv, fj if isinstance(fj, dict) else {})})
+                        rv_impl.append({"value": H.enc_val(v2), "log": [[e["rule_id"], e["before"], e["after"], e["tier"], e["safe"], e["semantics_changed"]] for e in log]})
+                        rv_case.append(case)
+        for case, impl, rep in zip(rv_case, rv_impl, drv.batch_par(rv_reqs)):
+            if "unsupported" in rep:
+                ctx.count("model_unsupported")
+            elif rep != impl:
+                ctx.corr_disagreements.append({"case": case, "model": rep, "impl": impl, "view": "repair_value (value, log)"})
 
         # -- B. API level: repair() ------------------------------------------------------------------
         api_cases = []
+        # corpus (hand-picked vectors and minimised past failures) runs first
+        for cf in sorted((vlib.VERIF / "corpus" / ctx.prop).glob("*.json")):
+            cj = json.loads(cf.read_text())
+            nm = "CORPUS_" + cf.stem.upper().replace("-", "_")
+            texts[nm] = wd.add_schema({"name": nm, "uf": cj.get("uf", "WARN"), "fields": [tuple(x) for x in cj["fields"]]})
+            sds[nm] = get_sd(nm, texts[nm])
+            api_cases.append((nm, H.to_tuples(cj["tree"]), None, "corpus"))
         for name in [s["name"] for s in specs]:
             sd = sds[name]
             hand = name in [h["name"] for h in H.HAND_SCHEMAS]
@@ -320,7 +421,7 @@ def run(ctx: vlib.Ctx):
         for (name, tree, meta, kind) in api_cases:
             if not H.tree_text_safe(tree):
                 continue
-            take = (kind == "pool" and name in hand_names and rng.random() < (1.0 if ctx.thorough or ctx.widen > 1 else 0.25)) or \
+            take = kind == "corpus" or (kind == "pool" and name in hand_names and rng.random() < (1.0 if ctx.thorough or ctx.widen > 1 else 0.25)) or \
                    (kind == "random" and rng.random() < (1.0 if ctx.thorough or ctx.widen > 1 else 0.3))
             if not take:
                 continue
